@@ -55,6 +55,7 @@ bool quiet();
 // Observation
 void probe(const char* name, uint64_t n = 1);          // rare-condition counters
 void fault_fired(const char* kind, uint64_t n = 1);    // a fault that actually fired
+void debug(const std::string& s);                       // printed to stderr when VERIF_VERBOSE is set (crash triage)
 void note(const std::string& s);                        // free text added to the sample rendering
 void mix_hash(uint64_t v);                              // add to the event-log hash
 
